@@ -385,6 +385,13 @@ def run(chk):
         for gname in sorted(guards):
             term = ("v", rv[1], rv[2] + ("properties", gname))
             i = st.iv.get(term)
+            sv = st.sym.get((rv[1], rv[2] + ("properties", gname)))
+            if sv is not None and sv[0] in ("n", "iv", "b"):
+                i = st.val_iv(sv) if sv[0] != "b" else i
+                if sv[0] == "b":
+                    from analysis.absdom import _bool_const
+                    bc = _bool_const(sv)
+                    i = (bc, bc) if bc is not None else i
             ok = i is not None and i[0] is not None and i[0] == i[1]
             chk.obligation(ok)
             if not ok:
